@@ -91,6 +91,25 @@ def check_C16(ctx):
                 if not p["same"]:
                     ctx.violation("ParseFile outcome differs between runs / from Parse", dict(src_hex=c["src_hex"][:200], sizes=p["sizes"]),
                                   impl=p.get("obs"), model=r["whole"], theorem="C16_schedule", key="parsefile-repeat")
+    # 5. the returned error must not depend on the schedule: early lexical failure, more data, then a read error
+    sched_cases = []
+    failsrc = b"print @\n" + b"print 1\n" * 200
+    for k in range(ctx.n(60, 400)):
+        sc = [["d", rng.choice([8, 20, 100])], ["d", 50], ["d", 50]] + [["d", 30]] * rng.randint(0, 3) + [["x", 0]]
+        sched_cases.append(dict(id="sch%d" % k, src_hex=failsrc.hex(), script=sc, api="parse", delay_us=rng.choice([0, 0, 50, 200, 1000])))
+    sres = run_probe_env(ctx, "proto", sched_cases, {}, "sched")
+    by_script = {}
+    for c in sched_cases:
+        r = sres.get(c["id"])
+        if r:
+            ctx.count(1, c["id"])
+            by_script.setdefault(json.dumps(c["script"]), set()).add((r["result"], r["reads"], r["closes"]))
+    for sc, outs in by_script.items():
+        if len(outs) > 1:
+            ctx.violation("ParseFile under the same read script gave different outcomes on repetition: %s" % sorted(outs),
+                          dict(script=json.loads(sc), src="print @ ... (lexical failure in the first read, read error later)"),
+                          impl=sorted(outs), theorem="C16_schedule", key="parsefile-schedule")
+    ctx.suite_stats["repeat_schedule"] = dict(runs=len(sched_cases), scripts=len(by_script))
     ctx.suite_stats["repeat"] = dict(programs=len(progs), processes=["1", "2", "16"], bind_cases=nb, bind_repetitions=40, parsefile_runs=len(pf) * 4)
     ctx.traces = len(progs)
     ctx.sample(dict(program=progs[0][:150].decode("utf8", "replace")))
